@@ -103,7 +103,7 @@ def build_unit(ctx):
         r.lit("functional-cast", "Real(0)", "(Real)(0)", 1)
         r.lit("symbolic-product/quotient->trusted-lemma", "SOR * er/Arr", "vf_div(vf_mul(SOR,er),Arr)", 1)
         r.sub("symbolic-product->trusted-lemma", r"\bsquare\(", "vf_sq(", 1)
-        r.lit("constructor-style initialiser", "const MultiplierIndex row(rows[i]);", "const MultiplierIndex row = (rows[i]);", 1)
+        r.sub("constructor-style initialiser", r"const MultiplierIndex row\(([^;]+)\);", r"const MultiplierIndex row = (\1);", 1)
         r.lit("container-access->contracted stub", "rowSums[i]", "RealArray_get(rowSums,i)", 1)
         container_rules(r, vecs=["pi", "D", "rhs"], idxs=["rows"])
     fn(r"Real doUpdates\(const Array_<int>& rows,\s*const Matrix&\s*A,\s*const Vector&\s*D,\s*const Vector&\s*rhs,\s*const Real&\s*SOR,\s*const Array_<Real>&\s*rowSums,\s*Vector&\s*pi\)\s*",
